@@ -1,9 +1,195 @@
-import SynthVerif.Model.Adsr
-import SynthVerif.Model.Lfo
-import SynthVerif.Model.Quantizer
-import SynthVerif.Model.Midi
-import SynthVerif.Model.Glide
-import SynthVerif.Model.Ribbon
+import SynthVerif.Props.C13
+/-!
+# C14 — Glide time setting means what it says
+
+* `setTime_cache`: a `set_time(t)` call is ignored exactly when `|fl(t − cached)| ≤ 0.05f32`, where `cached` is the
+  last honoured argument (the time in effect); otherwise `cached := t` and the coefficients are recomputed from `t`
+  alone — the filter memory is never touched (`C13.setTime_inv`).
+* `cutoff_of`: the cut-off actually used is `clamp(fl(1/t), fl(0.1), fs/2)`; hence
+  `long_times_equal`: every `t ≥ 10` (including +∞) selects the same coefficients as `t = 10`, and
+  `short_times_equal`: every `t` with `fl(1/t) ≥ fs/2` (in particular 0 and every time below two samples) selects
+  the same, fastest, coefficients.
+* `ideal_residual`: for the unrounded recurrence the distance to a held input shrinks by the factor
+  `1 − α = 1/(1+ω)` per sample (`ω = 2π·f0/fs`): the discrete RC lag of the property.  The numeric coverage figures
+  (99.5 % at t, 40–55 % at t/10, 8 samples for the fastest setting) are checked by the oracle on the implementation;
+  they are not proved here (`partial`, see DESIGN.md).
+-/
 namespace C14
-theorem placeholder_to_be_replaced : True := trivial
+open F32 Glide
+
+/-- the guard of `set_time` -/
+def ignored (g : Glide) (t : F32) : Bool := le (fabs (sub t g.cachedT)) epsilon
+
+theorem setTime_cache (g : Glide) (t : F32) :
+    (ignored g t = true → g.setTime t = some g) ∧
+    (ignored g t = false → ∀ g', g.setTime t = some g' →
+        g'.cachedT = t ∧ g'.x1 = g.x1 ∧ g'.x2 = g.x2 ∧ g'.y1 = g.y1 ∧ g'.y2 = g.y2 ∧
+        some g'.coeffs = mkCoeffs g.fs (fmin (fmax (div one t) g.minFc) g.maxFc)) := by
+  unfold ignored Glide.setTime
+  constructor
+  · intro h; rw [if_pos h]
+  · intro h g' hg
+    have hn : ¬ (le (fabs (sub t g.cachedT)) epsilon = true) := by simp [h]
+    rw [if_neg hn] at hg
+    dsimp only at hg
+    cases hc : mkCoeffs g.fs (fmin (fmax (div one t) g.minFc) g.maxFc) with
+    | none => rw [hc] at hg; simp at hg
+    | some c =>
+      rw [hc] at hg
+      simp only [Option.some.injEq] at hg
+      subst hg
+      exact ⟨rfl, rfl, rfl, rfl, rfl, rfl⟩
+
+theorem epsilon_is_50ms : epsilon.val = rnd (1 / 20) ∧ epsilon.isFin = true := by decide +kernel
+
+/-- the first call after construction is always honoured for `t ≥ 0`: the cache starts at −1 -/
+theorem first_call_honoured (σ : ℚ) (ns : Bool) (g : Glide) (hg : g.cachedT = .fin (-1) false)
+    (a : ℚ) (na : Bool) (ha : 0 ≤ a) (hb : a ≤ 2 ^ (100:ℤ)) : ignored g (.fin a na) = false := by
+  unfold ignored
+  rw [hg]
+  have hs := val_sub (x := .fin a na) (y := .fin (-1) false) rfl rfl
+    (by simp only [val_fin]; rw [abs_of_nonneg (by linarith)]; linarith [show (2:ℚ) ^ (100:ℤ) + 1 ≤ 2 ^ (127:ℤ) by norm_num])
+  simp only [val_fin] at hs
+  obtain ⟨s1, s2⟩ := hs
+  have h1 : 1 ≤ (sub (.fin a na) (.fin (-1) false)).val := by
+    rw [s2]; exact le_rnd_of_le (by linarith) rep_one
+  obtain ⟨e1, e2⟩ := epsilon_is_50ms
+  have heps : epsilon.val < 1 := by
+    rw [e1]; exact lt_of_le_of_lt (rnd_le_of_le (by norm_num : (1:ℚ)/20 ≤ 1/16)
+      (by have := rep_div_pow2 (m := 1) (by norm_num) 4 (by norm_num); norm_num at this; exact this)) (by norm_num)
+  cases hd : sub (F32.fin a na) (.fin (-1) false) with
+  | nan => rw [hd] at s1; simp at s1
+  | inf s => rw [hd] at s1; simp at s1
+  | fin d nd =>
+    rw [hd, val_fin] at h1
+    have : ¬ d < 0 := by linarith
+    have hf : fabs (F32.fin d nd) = .fin d nd := by simp [fabs, lt, zero, this]
+    rw [hf, le_val (isFin_fin _ _) e2, val_fin]
+    have : ¬ d ≤ epsilon.val := by linarith
+    simpa using this
+
+/-- the cut-off for a time argument -/
+def cutoffOf (g : Glide) (t : F32) : F32 := fmin (fmax (div one t) g.minFc) g.maxFc
+
+theorem ten_recip : div one (.fin 10 false) = ofRat (1 / 10) := by decide +kernel
+
+theorem clamp_low (m b d : ℚ) (nd : Bool) (hmb : m < b) (hd : d ≤ m) (hnd : d = m → nd = false) :
+    C20.clampSpec (.fin m false) (.fin b false) (.fin d nd) = .fin m false := by
+  by_cases hlt : d < m
+  · simp [C20.clampSpec, lt, hlt]
+  · have heq : d = m := le_antisymm hd (not_lt.mp hlt)
+    have := hnd heq
+    subst this; subst heq
+    have : ¬ b < d := not_lt.mpr (le_of_lt hmb)
+    simp [C20.clampSpec, lt, this]
+
+/-- **times ≥ 10 s behave like 10 s**: same cut-off, hence same coefficients -/
+theorem long_times_equal (g : Glide) (σ : ℚ) (ns : Bool) (h : C13.CInv g σ ns) (a : ℚ) (na : Bool) (ha : 10 ≤ a) :
+    cutoffOf g (.fin a na) = cutoffOf g (.fin 10 false) ∧ cutoffOf g (.inf false) = cutoffOf g (.fin 10 false) := by
+  obtain ⟨m1, m2, m3, m4⟩ := C13.minFc_val
+  have hσ : (ofRat (1 / 10)).val < σ / 2 := by linarith [h.lo]
+  have hcl := fun x => C20.max_min_clamp (ofRat (1 / 10)).val (σ / 2) (by linarith) (by linarith [h.lo]) hσ x
+  have key : ∀ x, cutoffOf g x = C20.clampSpec (.fin (ofRat (1 / 10)).val false) (.fin (σ / 2) false) (div one x) := by
+    intro x; unfold cutoffOf; rw [h.minFc, h.maxFc]; rw [m4] at *; exact hcl _
+  rw [key, key, key]
+  have hv : (ofRat (1 / 10)).val = rnd (1 / 10) := by decide +kernel
+  -- fl(1/a) ≤ fl(1/10)
+  have hq : (1:ℚ) / a ≤ 1 / 10 := by rw [div_le_div_iff₀ (by linarith) (by norm_num)]; linarith
+  have hone : one = .fin 1 false := rfl
+  have hov : one.val = 1 := rfl
+  have hdv : (div one (.fin a na)).isFin = true ∧ (div one (.fin a na)).val = rnd (1 / a) := by
+    have := val_div (x := one) (y := .fin a na) rfl rfl (by rw [val_fin]; linarith)
+      (by rw [hov, val_fin, abs_of_nonneg (by positivity)]; exact le_trans hq (by norm_num))
+    rwa [hov, val_fin] at this
+  have hle : (div one (.fin a na)).val ≤ (ofRat (1 / 10)).val := by
+    rw [hdv.2, hv]; exact rnd_mono hq
+  rw [ten_recip]
+  have rhs : C20.clampSpec (.fin (ofRat (1 / 10)).val false) (.fin (σ / 2) false) (ofRat (1 / 10)) =
+      .fin (ofRat (1 / 10)).val false := by
+    conv_lhs => rw [m4]
+    exact clamp_low _ _ _ _ hσ (le_refl _) (fun _ => rfl)
+  rw [rhs]
+  constructor
+  · cases hd : div one (F32.fin a na) with
+    | nan => rw [hd] at hdv; simp at hdv
+    | inf s => rw [hd] at hdv; simp at hdv
+    | fin d nd =>
+      rw [hd, val_fin] at hle
+      apply clamp_low _ _ _ _ hσ hle
+      intro heq
+      have : div one (F32.fin a na) = round (1 / a) ((F32.fin (1:ℚ) false).sign != (F32.fin a na).sign) := by
+        rw [hone, div_fin _ _ _ _ (by linarith)]
+      rw [this, round_def] at hd
+      split at hd
+      · simp at hd
+      · split at hd
+        · rename_i hz
+          simp only [F32.fin.injEq] at hd
+          have : d = 0 := hd.1.symm
+          rw [this] at heq; linarith
+        · simp only [F32.fin.injEq] at hd; exact hd.2.symm
+  · have : div one (.inf false) = .fin 0 false := by simp [div, one, sign]
+    rw [this]
+    exact clamp_low _ _ _ _ hσ (by linarith) (fun h0 => by linarith)
+
+theorem clamp_high (m b d : ℚ) (nd : Bool) (hm0 : 0 < m) (hmb : m < b) (hd : b ≤ d) (hnd : nd = false) :
+    C20.clampSpec (.fin m false) (.fin b false) (.fin d nd) = .fin b false := by
+  have h1 : ¬ d < m := by linarith
+  by_cases hlt : b < d
+  · simp [C20.clampSpec, lt, h1, hlt]
+  · have heq : d = b := le_antisymm (not_lt.mp hlt) hd
+    subst hnd; subst heq
+    simp [C20.clampSpec, lt, h1]
+
+/-- **times below two samples select the fastest response**: `set_time(0)` and every `t > 0` whose rounded
+reciprocal reaches `fs/2` use the cut-off `fs/2` -/
+theorem short_times_equal (g : Glide) (σ : ℚ) (ns : Bool) (h : C13.CInv g σ ns) :
+    cutoffOf g zero = .fin (σ / 2) false ∧
+    ∀ (a : ℚ) (na : Bool), 0 < a → σ / 2 ≤ rnd (1 / a) → 1 / a ≤ 2 ^ (127:ℤ) →
+      cutoffOf g (.fin a na) = .fin (σ / 2) false := by
+  obtain ⟨m1, m2, m3, m4⟩ := C13.minFc_val
+  have hσ : (ofRat (1 / 10)).val < σ / 2 := by linarith [h.lo]
+  have hm0 : 0 < (ofRat (1 / 10)).val := by linarith
+  have hcl := fun x => C20.max_min_clamp (ofRat (1 / 10)).val (σ / 2) (by linarith) (by linarith [h.lo]) hσ x
+  have key : ∀ x, cutoffOf g x = C20.clampSpec (.fin (ofRat (1 / 10)).val false) (.fin (σ / 2) false) (div one x) := by
+    intro x; unfold cutoffOf; rw [h.minFc, h.maxFc]; rw [m4] at *; exact hcl _
+  constructor
+  · rw [key]
+    have : div one zero = .inf false := by simp [div, one, zero, sign]
+    rw [this]
+    simp [C20.clampSpec, lt]
+  · intro a na ha hge hbig
+    rw [key]
+    have hone : one = .fin 1 false := rfl
+    have hd : div one (.fin a na) = round (1 / a) ((F32.fin (1:ℚ) false).sign != (F32.fin a na).sign) := by
+      rw [hone, div_fin _ _ _ _ (ne_of_gt ha)]
+    have hpos : 0 < rnd (1 / a) := by linarith [h.lo]
+    have hov : |rnd (1 / a)| < 2 ^ (128:ℤ) :=
+      no_overflow (by rw [abs_of_nonneg (by positivity)]; exact hbig)
+    rw [hd, round_def, qabs_eq, pow2_eq, if_neg (not_le.mpr hov)]
+    have hne : (rnd (1 / a) == 0) = false := by simpa using ne_of_gt hpos
+    rw [hne]
+    simp only [Bool.false_eq_true, ↓reduceIte]
+    exact clamp_high _ _ _ _ hm0 hσ hge rfl
+
+/-- the ideal (unrounded) one-pole recurrence -/
+def idealStep (α x y : ℚ) : ℚ := α * x + (1 - α) * y
+
+/-- its distance to a held input shrinks by exactly `1 − α` per sample: after `n` samples `(1 − α)^n` of the
+step remains — an RC lag with per-sample factor `1/(1+ω)` since `α = ω/(1+ω)` -/
+theorem ideal_residual (α x y0 : ℚ) (n : ℕ) :
+    (fun y => idealStep α x y)^[n] y0 - x = (1 - α) ^ n * (y0 - x) := by
+  induction n with
+  | zero => simp
+  | succ n ih =>
+    rw [Function.iterate_succ_apply', pow_succ]
+    unfold idealStep at *
+    have : α * x + (1 - α) * (fun y => α * x + (1 - α) * y)^[n] y0 - x =
+        (1 - α) * ((fun y => α * x + (1 - α) * y)^[n] y0 - x) := by ring
+    rw [this, ih]; ring
+
+theorem alpha_of_omega (ω : ℚ) (h : 0 ≤ ω) : 1 - ω / (1 + ω) = 1 / (1 + ω) := by
+  have : (1 + ω) ≠ 0 := by linarith
+  field_simp; ring
+
 end C14
